@@ -10,7 +10,8 @@ from ..common import Report, pmap
 from ..trackdrv import scenario
 
 FAMILY = r"^vert\.|^run\.crashed|^lattice|^setup\.valid"
-DRIVERS = {"tracker-vertical": ("harness.trackdrv", "track_trace", "TrackTrace", FAMILY)}
+DRIVERS = {"tracker-vertical": ("harness.trackdrv", "track_trace", "TrackTrace", FAMILY),
+           "tracker-column-exhaustive": ("harness.trackdrv", "track_trace", "TrackTrace", FAMILY)}
 
 
 def scenarios(tier, seed):
@@ -23,6 +24,29 @@ def scenarios(tier, seed):
     return out
 
 
+def column_scenarios(tier, seed):
+    """small-scope exhaustive, the space of MC_Tracker!InColumn executed on the real Tracker: bottom depths 20 / 40 / 80 m x every start
+    depth on a 1 m (thorough: 0.5 m) ladder incl. surface and bottom x every vertical displacement |dz| < h on the same ladder"""
+    rng = random.Random(seed + 37)
+    imax, jmax = 8, 7
+    out = []
+    for h in (20, 40, 80):
+        q = 16 if tier != "thorough" else 8                       # ladder step in 1/16 m (1 m; thorough: 0.5 m)
+        zs = list(range(0, h * 16 + 1, q))
+        dzs = [d for d in range(-(h * 16) + q, h * 16, q)]
+        parts = [(z, d) for z in zs for d in dzs]
+        rng.shuffle(parts)
+        for c in range(0, len(parts), 6000):
+            ch = parts[c:c + 6000]
+            n = len(ch)
+            out.append(dict(imax=imax, jmax=jmax, M=[[1] * imax for _ in range(jmax)], H=[[h] * imax for _ in range(jmax)], subgrid=None,
+                            dt=64, dx=128, dy=128, adv=rng.choice(["", "EF", "RK4"]), D=0.0, Dz=0.0, s16=0, sz16=0, vadv=True,
+                            x=[rng.choice([3, 4]) * 256 + rng.choice([-96, 32]) for _ in range(n)], y=[3 * 256 + 32] * n, z=[p[0] for p in ch],
+                            active=[True] * n, steps=[dict(un=[0] * n, vn=[0] * n, wn=[p[1] for p in ch])], stream=[1],
+                            cls=dict(h=h, hdiff=False, vdiff=False, vadv=True, advect=False, flat=True)))
+    return out
+
+
 def run(tier, seed):
     rep = Report("C15", tier, seed)
     rep.add_proof("InColumnAll")
@@ -31,6 +55,10 @@ def run(tier, seed):
     scs = scenarios(tier, seed)
     traces = pmap("harness.trackdrv", "track_trace", scs)
     rep.add_tv("tracker-vertical", "TrackTrace", scs, traces, tlc.validate_traces("TrackTrace", traces), family=FAMILY)
+    cs = column_scenarios(tier, seed)
+    ctr = pmap("harness.trackdrv", "track_trace", cs)
+    rep.add_tv("tracker-column-exhaustive", "TrackTrace", cs, ctr, tlc.validate_traces("TrackTrace", ctr, batch_events=4, timeout=1800), family=FAMILY)
+    rep.extra["column_particle_moves"] = sum(len(s["x"]) for s in cs)
     rep.nontrivial = sum(len(s["steps"]) * len(s["x"]) for s in scs if s["cls"]["vdiff"] or s["cls"]["vadv"])
     rep.rule = ("tracker steps with vertical diffusion (injected lattice draws) and/or vertical advection, bathymetry 20/40/80 m varying from "
                 "cell to cell, start depths 0, 1/16 m, mid, h - 1/16 m, h, simultaneous horizontal advection (EF/RK2/RK4) across cells, a quarter "
